@@ -8,6 +8,7 @@
 * copy = load(save(r)) shares no state with the source: reb_simulation_copy_with_messages reads the source only
   through reb_simulation_save_to_stream and writes the copy only through init / reb_input_fields (call structure).
 """
+import re
 import z3
 from engine.api import Pack
 from engine import layout, cfront
@@ -133,10 +134,36 @@ def _zeroed_and_never_stored(v, name, member_path):
     or memcpy's foreign data into the array; zero-initialisation at allocation is proved in task whfast_init.p_jh_new_tail_zeroed"""
     from engine import frames
     last = member_path.split(".")[-1]
-    aliases = {last, "p_j", "p_jh"} if last == "p_jh" else {last}
+    base = {last, "p_j", "p_jh"} if last == "p_jh" else {last}
     bad = []
     lib = frames.Lib(cfront.REPO)
-    for (tu, fname, fn) in lib.bodies():
+    bodies = list(lib.bodies())
+    params = {}
+    for (tu, fname, fn) in bodies:
+        params[fname] = [c.get("name") for c in fn.get("inner", ()) if isinstance(c, dict) and c.get("kind") == "ParmVarDecl"]
+    # interprocedural aliases: a parameter that receives the array (an argument whose text names an alias) is an alias
+    # inside the callee (transformations.c writes ri_whfast.p_jh through its p_j / p_h / p_b parameters)
+    alias = {fname: set(base) for (_tu, fname, _fn) in bodies}
+    for _round in range(4):
+        changed = False
+        for (tu, fname, fn) in bodies:
+            for n in frames.walk(fn):
+                if n.get("kind") != "CallExpr":
+                    continue
+                callee = frames.callee_name(n)
+                if callee not in params:
+                    continue
+                for k, a in enumerate(n["inner"][1:]):
+                    txt = frames.expr_text(a)
+                    if k < len(params[callee]) and params[callee][k] and any(re.search(r"\b%s\b" % re.escape(x), txt) for x in alias[fname]):
+                        # a pointer INTO the array (p_jh + offset) as well as the array itself
+                        if params[callee][k] not in alias[callee]:
+                            alias[callee].add(params[callee][k])
+                            changed = True
+        if not changed:
+            break
+    for (tu, fname, fn) in bodies:
+        aliases = alias[fname]
         if True:
             for n in frames.walk(fn):
                 if n.get("kind") == "BinaryOperator" and n.get("opcode") == "=":
@@ -144,12 +171,12 @@ def _zeroed_and_never_stored(v, name, member_path):
                     qt = lhs.get("type", {}).get("qualType", "")
                     if "struct reb_particle" in qt and "*" not in qt:
                         txt = frames.expr_text(lhs)
-                        if any(a in txt for a in aliases):
+                        if any(re.search(r"\b%s\b" % re.escape(a), txt) for a in aliases):
                             bad.append("%s: %s = ..." % (fname, txt))
                 if n.get("kind") == "CallExpr" and frames.callee_name(n) in ("memcpy", "memmove"):
                     args = n["inner"][1:]
                     dst, src = frames.expr_text(args[0]), frames.expr_text(args[1])
-                    if any(a in dst for a in aliases) and "sync_pj" not in src:
+                    if any(re.search(r"\b%s\b" % re.escape(a), dst) for a in aliases) and "sync_pj" not in src:
                         bad.append("%s: memcpy(%s, %s)" % (fname, dst, src))
     v.ground("%s.no_whole_element_store" % name.replace(" ", "_"), not bad, "; ".join(bad[:6]))
     return not bad
